@@ -404,6 +404,20 @@ class ForwardMonitor(Monitor):
 
 
 # ----------------------------------------------------------------------------
+def _cursor_snapshot(cur):
+    """identity-level description of a public cursor's internals: which tree it points into,
+    where, and (for gaps / blocks) its side or range"""
+    impl = cur._impl
+    own = id(cur._proc._loopir_proc)
+    if isinstance(impl, IC.Gap):
+        a = impl._anchor
+        return ("gap", own, id(a._root), tuple(tuple(x) for x in a._path), str(impl._type))
+    if isinstance(impl, IC.Block):
+        a = impl._anchor
+        return ("block", own, id(a._root), tuple(tuple(x) for x in a._path), impl._attr, impl._range.start, impl._range.stop)
+    return ("node", own, id(impl._root), tuple(tuple(x) for x in impl._path))
+
+
 class PurityMonitor(Monitor):
     """C07: no call, successful or failing, alters an existing procedure or cursor"""
 
@@ -420,6 +434,7 @@ class PurityMonitor(Monitor):
     def on_program(self, sess):
         self.registry = {}  # id(proc ir) -> (ir, fingerprint, name)
         self.cursors = []  # (Procedure, path, node)
+        self.derived = []  # (gap / block cursor, snapshot of its internals when taken)
         self.strs = {}
         self.note_all(sess)
         for name, p in sess.local_procs().items():
@@ -443,10 +458,16 @@ class PurityMonitor(Monitor):
             for _ in range(3):
                 path, node = self.ctx.rng.choice(st)
                 try:
-                    self.cursors.append((PC.lift_cursor(IC.Node(ir, list(path)), p), node))
+                    c = PC.lift_cursor(IC.Node(ir, list(path)), p)
+                    self.cursors.append((c, node))
+                    # cursors a user derives from it through the public API (they may share internal
+                    # objects with the statement cursor): gaps on both sides, the one-statement block
+                    for d in (c.after(), c.before(), c.as_block()):
+                        self.derived.append((d, _cursor_snapshot(d)))
                 except Exception:
                     pass
             self.cursors = self.cursors[-24:]
+            self.derived = self.derived[-48:]
 
     def check(self, sess, step, phase):
         ctx = self.ctx
@@ -474,6 +495,25 @@ class PurityMonitor(Monitor):
                         break
                 except Exception:
                     pass
+        if bad is None and phase == "accepted":
+            for cur, snap in self.derived:
+                try:
+                    ctx.stat("purity.forward_queries")
+                    sess.cur.forward(cur)
+                except Exception:
+                    pass
+        if bad is None:
+            for cur, snap in self.derived:
+                ctx.stat("purity.cursor_checks")
+                now = _cursor_snapshot(cur)
+                if now != snap:
+                    bad = {"what": "derived_cursor_changed", "kind": snap[0], "before": repr(snap)[:200], "after": repr(now)[:200]}
+                    break
+        if bad is None:
+            for cur, node in self.cursors:
+                if cur._impl._root is not cur._proc._loopir_proc:
+                    bad = {"what": "cursor_rerooted"}
+                    break
         if bad is None:
             for cur, node in self.cursors:
                 ctx.stat("purity.cursor_checks")
